@@ -19,7 +19,7 @@ var rawAlphabet = []string{"0", "1", "9", ".", "-", "+", "~", ":", "a", "_", " "
 
 // globalTokens is the part of Τ shared by all ecosystems.
 var globalTokens = []string{
-	"0", "1", "2", "9", "10", "01", "00", "000", BIG,
+	"0", "1", "2", "9", "10", "01", "00", "000", BIG, "2.0.0.1", "1.2.3.4.5",
 	".", "-", "+", "~", "^", "_", "!", ":",
 	"a", "alpha", "beta", "rc", "pre", "post", "dev", "sp", "ga", "final", "snapshot", "p", "cvs", "-r1", "v", " ",
 }
